@@ -228,6 +228,7 @@ type connResult struct {
 // carries its own instructions (and its own tag).
 //
 //	rb=N|all|none   how much of the body the handler reads (streaming) / observes
+//	bc=1            take the body through Request.Body()     rsb=1 Request.ResetBody()    sb=1 Request.SetBodyString
 //	sc=CODE         status code          body=TEXT   response body          close=1   SetConnectionClose
 //	hj=1 hijack     hjn=1 HijackSetNoResponse     hjnr=1 HijackSetNoResponse(true) WITHOUT Hijack
 //	hcl=1           Response.Header.Set("Connection","close")
@@ -355,7 +356,11 @@ func newConnServer(cfg connCfg) *connServer {
 		d.RespDefault = fmt.Sprintf("%d|%q|%d|%v", ctx.Response.StatusCode(), ctx.Response.Body(), ctx.Response.Header.Len(), ctx.Response.ConnectionClose())
 		q := ctx.QueryArgs()
 		rb := string(q.Peek("rb"))
-		if cfg.Stream {
+		if q.Has("bc") {
+			// the handler takes the body through Request.Body() (with StreamRequestBody this drains and closes the stream)
+			d.Body = append([]byte(nil), ctx.Request.Body()...)
+			d.BodyErr = "bodycall"
+		} else if cfg.Stream {
 			if st := ctx.RequestBodyStream(); st != nil && rb != "none" {
 				var err error
 				if rb == "" || rb == "all" {
@@ -373,6 +378,12 @@ func newConnServer(cfg connCfg) *connServer {
 			}
 		} else if rb != "none" {
 			d.Body = append([]byte(nil), ctx.Request.Body()...)
+		}
+		if q.Has("rsb") { // the handler drops the request body (after reading what rb says)
+			ctx.Request.ResetBody()
+		}
+		if q.Has("sb") { // ... or replaces it
+			ctx.Request.SetBodyString("replaced")
 		}
 		if q.Has("uv") {
 			ctx.SetUserValue("leak", "x")
